@@ -315,7 +315,42 @@ impl<'tcx> Dump<'tcx> {
                             _ => self.decode(&m2, addend, *inner, depth + 1),
                         }
                     }
-                    Some(GlobalAlloc::Static(did)) => o(vec![("static", s(self.path(did)))]),
+                    Some(GlobalAlloc::Static(did)) => {
+                        // follow the pointer into the static's own allocation (nested statics of slices etc.)
+                        let init = std::panic::catch_unwind(std::panic::AssertUnwindSafe(|| tcx.eval_static_initializer(did).ok()));
+                        if let Ok(Some(a)) = init {
+                            let a = a.inner();
+                            let bytes = a.inspect_with_uninit_and_ptr_outside_interpreter(0..a.len()).to_vec();
+                            let mut ptrs = BTreeMap::new();
+                            for (off, prov) in a.provenance().ptrs().iter() {
+                                ptrs.insert(off.bytes(), prov.alloc_id());
+                            }
+                            let m2 = Mem { bytes, ptrs, _m: std::marker::PhantomData };
+                            match inner.kind() {
+                                ty::Str => {
+                                    let len = self.read_uint(mem, off + 8, 8).unwrap_or(0) as u64;
+                                    let end = (addend + len).min(m2.bytes.len() as u64);
+                                    let b = &m2.bytes[addend as usize..end as usize];
+                                    s(String::from_utf8_lossy(b).to_string())
+                                }
+                                ty::Slice(elem) => {
+                                    let len = self.read_uint(mem, off + 8, 8).unwrap_or(0) as u64;
+                                    let el = match tcx.layout_of(env.as_query_input(*elem)) {
+                                        Ok(l) => l.size.bytes(),
+                                        Err(_) => return o(vec![("undecoded", s("layout"))]),
+                                    };
+                                    let mut v = vec![];
+                                    for i in 0..len {
+                                        v.push(self.decode(&m2, addend + i * el, *elem, depth + 1));
+                                    }
+                                    J::A(v)
+                                }
+                                _ => self.decode(&m2, addend, *inner, depth + 1),
+                            }
+                        } else {
+                            o(vec![("static", s(self.path(did)))])
+                        }
+                    }
                     Some(GlobalAlloc::Function { instance }) => o(vec![("fn", s(self.path(instance.def_id())))]),
                     _ => o(vec![("undecoded", s("alloc"))]),
                 }
